@@ -10,8 +10,13 @@
  * DFAN session on the same file (DFANputlabel/DFANputdesc replacing or adding, DFANaddfid/DFANaddfds, DFANget*);
  * second AN session after reopen re-reads everything; raw element bytes (Hgetelement) -> `rawelem`.
  * Annotation refs handed out by Htagnewref are INPUTS of the model.  An annotation is named (type, annref) on T lines.
- * Probes (cases 7, 8 mod 50, unless argv[4] == "noprobe"): ANcreate as the first call of a session on a file that
- * already has annotations of that type; ANwriteann with an empty text; ANreadann of a label with maxlen = 1.
+ * Cases 7 and 9 mod 50 are positive tests of two repaired defects (/repo d4a30b4, d625c61): ANcreate as the first call
+ * of a session on a file that already has annotations of that type must not hide them; ANreadann of a label with
+ * maxlen = 1 must write one byte.  Sessions after a reopen skip the initial ANfileinfo in 30 % of the cases and reads
+ * use maxlen down to 1 everywhere, so both are also covered by the random histories.
+ * Probes (cases 8, 10, 11 mod 50, unless argv[4] == "noprobe"): ANwriteann with an empty text (an-write-empty);
+ * DFANgetfid without DFANgetfidlen repeats the last label (dfan-getf-repeat); DFAN's per-file-name directory cache
+ * misses annotations written through AN* (dfan-stale-dir).
  * Oracles (model-independent): the shadow list below (type, ref, target, bytes; creation order).
  */
 #ifdef DFAN_C
@@ -141,7 +146,7 @@ static void q_read(SA *a, int32 id)
     int32 l = ANannlen(id);
     printf("T an annlen %d %d => ", a->type, a->ref); if (l == FAIL) printf("fail\n"); else printf("%d\n", (int)l);
     if (l != a->len) hk_fail("an-annlen", "ANannlen=%d shadow %d (type %d ref %d)", (int)l, a->len, a->type, a->ref);
-    int maxlen = hk_chance(60) ? TMAX + 8 : (int)hk_range(is_label(a->type) ? 2 : 1, a->len + 2);
+    int maxlen = hk_chance(60) ? TMAX + 8 : (int)hk_range(1, a->len + 2);
     if (force_maxlen) maxlen = force_maxlen;
     memset(rb, 0xA5, sizeof rb); memset(rb2, 0x5A, sizeof rb2);
     int32 r = ANreadann(id, (char *)rb, maxlen);
@@ -289,7 +294,7 @@ static void dfan_session(void)
             if ((l != FAIL) != (hit != NULL)) hk_fail("dfan-getlen", "DFANget%slen(%d/%d)=%d shadow %s", type == AN_DATA_LABEL ? "lab" : "desc", et, er, (int)l, hit ? "has one" : "has none");
             else if (hit && l != hit->len) hk_fail("dfan-getlen", "length %d shadow %d", (int)l, hit->len);
             if (hit) {
-                int maxlen = hk_chance(60) ? TMAX + 8 : (int)hk_range(type == AN_DATA_LABEL ? 2 : 1, hit->len + 2);
+                int maxlen = hk_chance(60) ? TMAX + 8 : (int)hk_range(1, hit->len + 2);
                 memset(rb, 0xA5, sizeof rb); memset(rb2, 0x5A, sizeof rb2);
                 int r = type == AN_DATA_LABEL ? DFANgetlabel(path, (uint16)et, (uint16)er, (char *)rb, maxlen) : DFANgetdesc(path, (uint16)et, (uint16)er, (char *)rb, maxlen);
                 if (type == AN_DATA_LABEL) DFANgetlabel(path, (uint16)et, (uint16)er, (char *)rb2, maxlen); else DFANgetdesc(path, (uint16)et, (uint16)er, (char *)rb2, maxlen);
@@ -390,13 +395,51 @@ static void probe_maxlen1(void)
     close_an();
 }
 
+/* dfan.c side findings (probes 10, 11 mod 50): no model involved, implementation oracles only */
+static void probe_dfan_getfid_alone(void)
+{
+    int32 f = Hopen(path, DFACC_CREATE, 0);
+    if (f == FAIL) return;
+    DFANclear();
+    if (DFANaddfid(f, "only label") == FAIL) hk_fail("dfan-addf", "DFANaddfid");
+    printf("T an dfaddf %d %d 6f6e6c79206c6162656c => ok\n", AN_FILE_LABEL, (int)DFANlastref());
+    Hclose(f);
+    f = Hopen(path, DFACC_READ, 0);
+    char b[64];
+    int32 l1 = DFANgetfid(f, b, 64, 1);   /* without DFANgetfidlen before it */
+    int32 l2 = DFANgetfid(f, b, 64, 0);
+    if (l1 != 10) hk_fail("dfan-getf", "first DFANgetfid = %d", (int)l1);
+    if (l2 != FAIL) hk_fail("dfan-getf-repeat", "DFANgetfid(isfirst=0) after the only file label returns it again (length %d): Next_label_ref++ bumps a stale value", (int)l2);
+    Hclose(f);
+}
+static void probe_dfan_stale_dir(void)
+{
+    char lab[64];
+    int32 f = Hopen(path, DFACC_CREATE, 0);
+    if (f == FAIL) return;
+    Hclose(f);
+    DFANclear();
+    if (DFANputlabel(path, 1000, 1, "first") == FAIL) { hk_fail("dfan-put", "DFANputlabel"); return; }   /* builds DFAN's directory */
+    printf("T an dfput %d 1000 1 %d 6669727374 => %d\n", AN_DATA_LABEL, (int)DFANlastref(), (int)DFANlastref());
+    f = Hopen(path, DFACC_RDWR, 0);
+    int32 a = ANstart(f), id = ANcreate(a, 1000, 2, AN_DATA_LABEL);
+    if (id == FAIL || ANwriteann(id, "second", 6) == FAIL) hk_fail("an-write", "probe");
+    ANend(a); Hclose(f);
+    int r = DFANgetlabel(path, 1000, 2, lab, 64);
+    if (r == FAIL) hk_fail("dfan-stale-dir", "DFANgetlabel does not find a label written through ANwriteann after DFAN built its directory for this file name (found again after DFANclear: %d)",
+                           (DFANclear(), DFANgetlabel(path, 1000, 2, lab, 64)));
+    DFANclear();
+}
+
 static void run_case(int k)
 {
     path = hk_tmp("a.hdf");
     nsa = 0;
-    if (probes_on && k % 50 == 7) { printf("INFO probe create-first\n"); probe_create_first(); return; }
+    if (k % 50 == 7) { printf("INFO create-first\n"); probe_create_first(); return; }
     if (probes_on && k % 50 == 8) { printf("INFO probe empty-text\n"); probe_empty_text(); return; }
-    if (probes_on && k % 50 == 9) { printf("INFO probe maxlen-1\n"); probe_maxlen1(); return; }
+    if (k % 50 == 9) { printf("INFO maxlen-1\n"); probe_maxlen1(); return; }
+    if (probes_on && k % 50 == 10) { printf("INFO probe dfan-getfid-alone\n"); probe_dfan_getfid_alone(); return; }
+    if (probes_on && k % 50 == 11) { printf("INFO probe dfan-stale-dir\n"); probe_dfan_stale_dir(); return; }
     if (open_an(1, 1) < 0) return;
     int steps = (int)hk_range(3, 40);
     int many = hk_chance(20); /* many annotations on one object */
@@ -439,7 +482,9 @@ static void run_case(int k)
     verify_all("same-session");
     close_an();
     if (hk_chance(70)) dfan_session();
-    if (open_an(0, 1) < 0) return;
+    int info = hk_chance(70);
+    if (open_an(0, info) < 0) return;
+    if (!info && hk_chance(60)) { do_create(); do_create(); hk_stat("create_first_sessions", 1); } /* creation is the first AN call */
     verify_all("after-reopen");
     if (hk_chance(40)) { for (int i = 0; i < 4; i++) do_create(); verify_all("second-session"); }
     close_an();
